@@ -357,3 +357,33 @@ mod tests {
         assert_eq!(membership[17], 1);
     }
 }
+
+/// Verification hook: the pruning predicate of the filtering algorithm.
+#[cfg(feature = "verif")]
+pub fn verif_bbd_prune<T: RealNumber>(
+    center: &[T],
+    radius: &[T],
+    centroids: &[Vec<T>],
+    best_index: usize,
+    test_index: usize,
+) -> bool {
+    BBDTree::prune(center, radius, centroids, best_index, test_index)
+}
+
+/// Verification hook: build the tree and run one assignment pass for the given centroids.
+/// Returns (distortion, sums, counts, membership).
+#[cfg(feature = "verif")]
+#[allow(clippy::type_complexity)]
+pub fn verif_bbd_clustering<T: RealNumber, M: Matrix<T>>(
+    data: &M,
+    centroids: &[Vec<T>],
+) -> (T, Vec<Vec<T>>, Vec<usize>, Vec<usize>) {
+    let tree = BBDTree::new(data);
+    let k = centroids.len();
+    let d = centroids[0].len();
+    let mut sums = vec![vec![T::zero(); d]; k];
+    let mut counts = vec![0usize; k];
+    let mut membership = vec![0usize; data.shape().0];
+    let dist = tree.clustering(centroids, &mut sums, &mut counts, &mut membership);
+    (dist, sums, counts, membership)
+}
